@@ -559,7 +559,12 @@ func (s *state) addConnHandler(
 	h := sha256.New()
 
 	fds := make(map[string]*descriptorpb.FileDescriptorProto)
+	// The services the backend serves: a file may declare others.
+	listed := make(map[protoreflect.FullName]bool)
 	for _, svc := range r.GetListServicesResponse().GetService() {
+		listed[protoreflect.FullName(svc.GetName())] = true
+		// (part of the hash: two services of one file fetch the same bytes)
+		h.Write([]byte(svc.GetName() + "\n"))
 		if err := stream.Send(&rpb.ServerReflectionRequest{
 			MessageRequest: &rpb.ServerReflectionRequest_FileContainingSymbol{
 				FileContainingSymbol: svc.GetName(),
@@ -612,7 +617,7 @@ func (s *state) addConnHandler(
 			return err
 		}
 
-		hs, err := s.processFile(opts, cc, file)
+		hs, err := s.processFile(opts, cc, file, listed)
 		if err != nil {
 			return err
 		}
@@ -795,12 +800,15 @@ func createConnHandler(
 	}
 }
 
-func (s *state) processFile(opts muxOptions, cc *grpc.ClientConn, fd protoreflect.FileDescriptor) ([]*handler, error) {
+func (s *state) processFile(opts muxOptions, cc *grpc.ClientConn, fd protoreflect.FileDescriptor, listed map[protoreflect.FullName]bool) ([]*handler, error) {
 	var handlers []*handler
 
 	sds := fd.Services()
 	for i := 0; i < sds.Len(); i++ {
 		sd := sds.Get(i)
+		if !listed[sd.FullName()] {
+			continue // declared in a file the backend sent, not served by it
+		}
 
 		mds := sd.Methods()
 		for j := 0; j < mds.Len(); j++ {
